@@ -49,11 +49,15 @@ RULE = (
     "again); the empty suffix on a PDU without CRC is the baseline itself and is counted as trivial."
 )
 BOUNDS = {
-    "quick": "corpus('quick'); ~440 suffixes per (recipe, decoder); all ordered pairs of self-delimiting corpus units",
-    "thorough": "corpus('thorough'); ~9500 suffixes per (recipe, decoder) (adds runs up to 64 and 255/256 octets, every 2-octet "
-                "string whose first octet is in walk(8) or 0..15 (33 x 256), shaped strings of length 3..32, every TLV of the thorough TLV corpora, TLV "
-                "pairs); all ordered pairs, all ordered triples within a unit family and all triples of the first 3 recipes "
-                "of every kind across families",
+    "quick": "corpus('quick'): 415 self-delimiting recipes (597 recipe x decoder) + 272 PDU recipes x 2 entry points; 369 generic suffixes + "
+             "CRC pair + complemented CRC per (recipe, decoder), PDUs also empty suffix + self copy + 272 back-to-back PDUs; all 597 x 415 "
+             "ordered pairs of self-delimiting corpus units",
+    "thorough": "corpus('thorough'): 716 self-delimiting recipes (1210 recipe x decoder) + 544 PDU recipes x 2 entry points; 8802 generic "
+                "suffixes (adds runs up to 64 and 255/256 octets, every 2-octet string whose first octet is in walk(8) or 0..15 (33 x 256), "
+                "shaped strings of length 3..32, every TLV of the thorough TLV corpora, TLV pairs) + CRC pair + complemented CRC, PDUs also "
+                "empty suffix + self copy + 544 back-to-back PDUs; all 1210 x 716 ordered pairs; all ordered triples within a unit family "
+                "(CCSDS time 108^3, PUS 153^3, CFDP header 64^3, TLV/LV 121^3, USLP 109^3; PUS and TLV/LV with their quick corpora) and all triples of the first 3 recipes of every kind across families (69^3 minus "
+                "the in-family ones)",
 }
 ASSUMPTIONS = [
     "unit.ref (ref/*.py, bound to the repository's byte vectors by selftest/st_ref_*.py) yields valid packed units; that the "
@@ -68,6 +72,8 @@ ASSUMPTIONS = [
 ]
 
 EXTRA_SD = ("PusTmSecondaryHeader",)  # caller-delimited: fixed size given the timestamp length handed to the decoder
+SAMPLE_UNITS = ("PusTm", "FileStoreResponseTlv", "UslpPrimaryHeader", "MetadataPdu", "FileDataPdu")  # evidence samples come from these
+TRIPLE_CAP = 128  # a family with more corpus units than this uses its quick corpora in the triples
 CROSS_K = 3  # recipes per kind in the cross-family triples (thorough)
 FIELD_NAMES = {
     "CdsShortTimestamp": ["ccsds_days", "ms_of_day", "pfield"],
@@ -399,6 +405,7 @@ def sd_repro(dname, recipe, raw, s):
         f"dec = lambda B: {expr}",
         "a, b = dec(u), dec(u + s)  # b must be indistinguishable from a and report len(u) octets",
         "print(vars(a) if hasattr(a, '__dict__') else a); print(vars(b) if hasattr(b, '__dict__') else b)",
+        "print('reported length', getattr(b, 'packet_len', None), 'unit length', len(u))",
     ])
 
 
@@ -455,7 +462,7 @@ def run_suffix_sd(rec, name, recipes, tier):
                 rec.violation(f"C09.suffix/{dname}/hang", {"clause": "suffix", "unit": name, "recipe": recipe, "dec": dname, "s": hx(cur or b"")},
                               "no return within the shard's budget", "returns")
         rec.count("recipes/" + name)
-    if recipes:
+    if recipes and name in SAMPLE_UNITS and recipes[0] == unit.corpus(tier)[0]:
         r = recipes[0]
         raw = unit.ref(r)
         rec.sample({"unit": name, "recipe": r, "octets": raw[:64], "suffix_example": b"\x06\x01\x07",
@@ -544,7 +551,7 @@ def run_split(rec, item):
             rec.count("split_pairs", len(seconds))
             rec.count("split_first/" + first.dname, len(seconds))
     rec.outcome("split:same")
-    if recs and item["lo"] == 0:
+    if recs and item["lo"] == 0 and name == "PusTc":
         a, b = Elem(name, 0, recs[0]), seconds[-1]
         rec.sample({"clause": "split", "stream": (a.base.raw + b.base.raw)[:96], "expected_pieces": [a.base.raw[:64], b.base.raw[:64]],
                     "units": [a.name, b.name]}, limit=1)
@@ -555,7 +562,10 @@ def triple_members(tier, fam):
     corpus = sd_corpus(tier)
     if fam == "x":
         return [(n, i, r) for n, i, r in corpus if i < CROSS_K]
-    return [(n, i, r) for n, i, r in corpus if family(n) == fam]
+    members = [(n, i, r) for n, i, r in corpus if family(n) == fam]
+    if len(members) > TRIPLE_CAP:  # a^3 grows fast: the two big families (PUS, TLV) take their quick corpora for the triples
+        members = [(n, i, r) for n, i, r in sd_corpus("quick") if family(n) == fam]
+    return members
 
 
 def run_split3(rec, item):
@@ -683,6 +693,20 @@ def pdu_eval(unit, recipe, s, via, base):
     return None
 
 
+_BASE_MEMO = {}
+
+
+def _memo_base(unit, recipe, via):
+    """pdu_base is a function of (unit, recipe, entry point) only: cached for the reduced recipes of the minimisation"""
+    k = (unit.name, key_of(recipe), via)
+    b = _BASE_MEMO.get(k)
+    if b is None:
+        if len(_BASE_MEMO) > 4000:
+            _BASE_MEMO.clear()
+        b = _BASE_MEMO[k] = pdu_base(unit, recipe, via)
+    return b
+
+
 def pdu_features(unit, recipe, s, via, fail):
     """delta-debugging over the two configuration bits DESIGN.md names (CRC flag, large file): a bit stays in the
     signature only if the same disagreement disappears when it is reset"""
@@ -700,7 +724,7 @@ def pdu_features(unit, recipe, s, via, fail):
         f2 = None
         if red is not None:
             try:
-                f2 = pdu_eval(unit, red, s, via, pdu_base(unit, red, via))
+                f2 = pdu_eval(unit, red, s, via, _memo_base(unit, red, via))
             except Hang:
                 raise
             except Exception:
@@ -809,7 +833,7 @@ def run_suffix_pdu(rec, name, recipes, tier):
             rec.violation(f"C09.suffix/{name}.unpack/hang", {"clause": "pdu", "unit": name, "recipe": recipe, "s": hx(cur or b"")},
                           "no return within the shard's budget", "returns")
         rec.count("recipes/" + name)
-    if recipes:
+    if recipes and name in SAMPLE_UNITS and recipes[0] == unit.corpus(tier)[0]:
         r = recipes[-1]
         raw = unit.ref(r)
         rec.sample({"unit": name, "recipe": r, "octets": raw[:96], "suffix_example": bytes(8),
